@@ -78,6 +78,8 @@ def run_c01_reuse(ctx, binary=None):
     for c in (3, 2, 1):
         st += [{"a": "ReadRet", "x": c, "k": "reply", "c": c}, {"a": "Return", "c": c}]
     scripts.append({"name": "three-conns-reverse-replies", "origin": "scenario", "steps": st})
+    # a retry must carry the call's own framed query again (released buffers are poisoned by the harness)
+    scripts += [s for s in pl.reuse_scenarios(T) if s["name"] in ("stale2-write_ok_then_eof", "stale1-reset_on_write")]
     # a cancelled query's late reply must not be taken for the reply of the next query on the reused connection
     scripts += pl.expand_repeat([dict(pl.reuse_cancel_scenarios(T)["late-reply-then-reuse"], repeat=3),
                                  pl.reuse_cancel_scenarios(T)["cancel-then-next-before-late-reply"]])
